@@ -231,6 +231,13 @@ pub fn generate(ctx: &mut Ctx) {
         }
         ctx.case("z:spelled", &format!("z {}", vx::h(&t)));
     }
+    // something BEFORE the document: a byte order mark, blanks, line breaks, a NUL - whatever the buffer entry point does
+    // with it (skip it, reject it) the reader entry points must do too
+    for lead in ["\u{feff}", "\u{feff}\u{feff}", " ", "\n", "\r\n", "\t", "\u{0}", "\u{a0}", "\u{200b}", "\u{fffe}", "#"] {
+        for doc in ["42kW", "\"s\"", "[1,2]", "{a:1}", "ver:\"3.0\"\na,b\n1,2\n3,4\n", "ver:\"3.0\" m:1\nid\n@a\n\n"] {
+            ctx.case("z:lead", &format!("z {}", vx::h(&format!("{lead}{doc}"))));
+        }
+    }
     // grids without rows, with and without white space after them
     for head in ["a", "id,dis", "a,b,c", "a x:1", "a, b"] {
         for tail in ["\n", "\n\n", "\n\n\n", "\n\n \t", "\r\n\r\n\r\n", "\n\n\n\n", "\n \n", "\n\n1"] {
